@@ -295,6 +295,15 @@ static std::string native_conv(int op, const std::vector<std::string>& a) {
 	}
 }
 
+// C06: std::numeric_limits<T> members as encodings: [max, lowest, min, epsilon, denorm_min] (integers: [max, lowest])
+template <class T, class Tr>
+static std::string limits_of(bool integer_like) {
+	using L = std::numeric_limits<T>;
+	std::string s = Tr::out(L::max()) + "," + Tr::out(L::lowest());
+	if (!integer_like) { s += "," + Tr::out(L::min()); s += "," + Tr::out(L::epsilon()); s += "," + Tr::out(L::denorm_min()); }
+	return s;
+}
+
 // sources aimed at the lattice of the target: v = value of encoding a, v2 = value of the next encoding
 static void native_sources(double v, double v2, bool first, Rng& g,
                            const std::function<void(int, std::vector<std::string>)>& emit, bool i8 = true) {
